@@ -256,11 +256,17 @@ impl MDBInMemoryShard {
         // First, create a temporary shard structure in that directory.
         let temp_file_name = directory.join(temp_shard_file_name());
 
+        #[cfg(xet_verif)]
+        utils::verif::point("shard_flush:before_temp_write");
         let shard_hash = self.write_to_temp_shard_file(&temp_file_name)?;
+        #[cfg(xet_verif)]
+        utils::verif::point("shard_flush:temp_written");
 
         let full_file_name = directory.join(shard_file_name(&shard_hash));
 
         std::fs::rename(&temp_file_name, &full_file_name)?;
+        #[cfg(xet_verif)]
+        utils::verif::point("shard_flush:renamed");
         #[cfg(xet_verif)]
         utils::verif::stamp_mtime(&full_file_name);
 
